@@ -375,7 +375,7 @@ def run_fp(tier, seed, group):
     tried = []
     r = None
     for sb in cands:
-        r = _run_fp_one(tier, seed, group, sb, 200000 if quick else 1200000)
+        r = _run_fp_one(tier, seed, group, sb, 600000 if quick else 1200000)  # z3 timeouts are WALL time: generous because the machine is shared
         tried.append("FPSort(8,%d): %s" % (sb, r.get("status")))
         if r.get("status") in ("PROVED", "VIOLATION", "ERROR"):
             break
